@@ -812,3 +812,6 @@ GROUPS["kind:Constant"] = _c04("g_constant")
 GROUPS["kind:JoinedStr"] = _c04("g_joinedstr")
 GROUPS["kind:FormattedValue"] = _c04("g_formattedvalue")
 GROUPS["fstring-nesting"] = _c04("g_nesting")
+from suites import thorough as _th
+GROUPS["thorough:spec-validation"] = _th.g_spec_validate_grammar
+GROUPS["thorough:deep-trees"] = _th.bounded_from_replay("bounded/deep-expression-samples-round-trip", replay_deep)
